@@ -147,6 +147,9 @@ HARNESS_FILES = {
     "sched": {
         "internal/dag/scheduler/zz_verif_hooks.go": "go/hooks/dagscheduler_hooks_verif.go",
     },
+    "cron": {
+        "internal/scheduler/zz_verif_hooks.go": "go/hooks/scheduler_hooks_verif.go",
+    },
 }
 
 
